@@ -14,7 +14,7 @@ use crate::desc::{d, du, s, su};
 use crate::harness::{components_json, finish, Options};
 use crate::json::Json;
 use crate::rng::{hash_str, Fingerprint, Rng};
-use crate::stats::{run_parallel, Acc, Distinct, Report};
+use crate::stats::{run_parallel_then, Acc, Distinct, Report};
 use crate::streams::{dmin_stream_ok, first_overfull_window, gen_dmin_stream};
 
 /// Independent model of the tightest super-additive extension:
@@ -837,63 +837,65 @@ pub fn run_c13(opt: &Options) -> i32 {
         fps: &fps,
         nontrivial: &nontrivial,
     };
-    let mut acc = run_parallel(cases, opt.jobs, 60, |k, acc, note| c13_item(&sh, k, acc, note));
-    let wall = t0.elapsed().as_secs_f64();
-    let mut cov = Json::obj();
-    cov.set("evaluations", Json::Int(acc.counters.get("runs") as i128));
-    cov.set("distinct_nontrivial", Json::Int(nontrivial.count() as i128));
-    cov.set(
-        "rule",
-        Json::str(
-            "one evaluation = either one event stream respecting an original delta-min prefix \
-             (dense or with injected delays) checked in every window against the extrapolated \
-             Curve (extrapolate / extrapolate_steps / extrapolate_with_bound) or ExtrapolatingCurve, \
-             plus prefix-unchanged and only-tightens checks along the scan; or one query history: \
-             2-5 cooperative clients holding handles (clones, jittered clones, nested jittered \
-             clones, RBFs) on one shared ExtrapolatingCurve issue number_arrivals / service_needed \
-             / open-advance-drop steps_iter operations under a seeded scheduler, every answer \
-             compared with a fresh eagerly extrapolated Curve and an independent closure model. \
-             distinct = distinct fingerprints of (prefix, extension, events) resp. of the operation \
-             history; non-trivial = the stream extends beyond the original prefix resp. the history \
-             touches at least two handles",
-        ),
-    );
-    cov.set("distinct_cases", Json::Int(fps.count() as i128));
-    cov.set("simulated_time_ticks", Json::Int(acc.counters.get("sim_ticks") as i128));
-    cov.set(
-        "components",
-        components_json(
-            &["arrival::Curve::{extrapolate, extrapolate_steps, extrapolate_with_bound, min_distance, number_arrivals}, arrival::ExtrapolatingCurve::{number_arrivals, steps_iter, clone, clone_with_jitter}, Propagated over it, demand::RBF over it (real)"],
-            &["event source constrained by the original prefix; cooperative query-client scheduler; closure reference model (stubs, sim/src/extrap.rs)"],
-        ),
-    );
-    let out = finish(
-        opt,
-        &mut acc,
-        wall,
-        cov,
-        &[
-            "prefixes are taken from random traces (super-additive on the recorded range by construction), never all-zero",
-            "the library is single-threaded by type (Rc<RefCell>); 'interleaving' means the order in which cooperative clients issue operations, including lazy iterators that stay open across other clients' mutations",
-        ],
-        &|r: &Report| {
-            let kind = get_line(&r.replay, "kind ").unwrap_or_default();
-            if kind == "clients" {
-                if let Some(h) = parse_history(&r.replay) {
-                    if let Err(f) = run_history(&h) {
-                        let (m, f2) = minimise_history(&h, &f);
-                        let note = get_line(&r.replay, "note ").unwrap_or_default();
-                        return (
-                            replay_text("clients", &history_text(&m), &fail_text(&f2, &m), &format!("{} (minimised from {} operations)", note, h.ops.len())),
-                            format!("prefix {:?}: {}", m.prefix, fail_text(&f2, &m)),
-                        );
+    let fin = |mut acc: Acc| -> i32 {
+        let wall = t0.elapsed().as_secs_f64();
+        let mut cov = Json::obj();
+        cov.set("evaluations", Json::Int(acc.counters.get("runs") as i128));
+        cov.set("distinct_nontrivial", Json::Int(nontrivial.count() as i128));
+        cov.set(
+            "rule",
+            Json::str(
+                "one evaluation = either one event stream respecting an original delta-min prefix \
+                 (dense or with injected delays) checked in every window against the extrapolated \
+                 Curve (extrapolate / extrapolate_steps / extrapolate_with_bound) or ExtrapolatingCurve, \
+                 plus prefix-unchanged and only-tightens checks along the scan; or one query history: \
+                 2-5 cooperative clients holding handles (clones, jittered clones, nested jittered \
+                 clones, RBFs) on one shared ExtrapolatingCurve issue number_arrivals / service_needed \
+                 / open-advance-drop steps_iter operations under a seeded scheduler, every answer \
+                 compared with a fresh eagerly extrapolated Curve and an independent closure model. \
+                 distinct = distinct fingerprints of (prefix, extension, events) resp. of the operation \
+                 history; non-trivial = the stream extends beyond the original prefix resp. the history \
+                 touches at least two handles",
+            ),
+        );
+        cov.set("distinct_cases", Json::Int(fps.count() as i128));
+        cov.set("simulated_time_ticks", Json::Int(acc.counters.get("sim_ticks") as i128));
+        cov.set(
+            "components",
+            components_json(
+                &["arrival::Curve::{extrapolate, extrapolate_steps, extrapolate_with_bound, min_distance, number_arrivals}, arrival::ExtrapolatingCurve::{number_arrivals, steps_iter, clone, clone_with_jitter}, Propagated over it, demand::RBF over it (real)"],
+                &["event source constrained by the original prefix; cooperative query-client scheduler; closure reference model (stubs, sim/src/extrap.rs)"],
+            ),
+        );
+        let out = finish(
+            opt,
+            &mut acc,
+            wall,
+            cov,
+            &[
+                "prefixes are taken from random traces (super-additive on the recorded range by construction), never all-zero",
+                "the library is single-threaded by type (Rc<RefCell>); 'interleaving' means the order in which cooperative clients issue operations, including lazy iterators that stay open across other clients' mutations",
+            ],
+            &|r: &Report| {
+                let kind = get_line(&r.replay, "kind ").unwrap_or_default();
+                if kind == "clients" {
+                    if let Some(h) = parse_history(&r.replay) {
+                        if let Err(f) = run_history(&h) {
+                            let (m, f2) = minimise_history(&h, &f);
+                            let note = get_line(&r.replay, "note ").unwrap_or_default();
+                            return (
+                                replay_text("clients", &history_text(&m), &fail_text(&f2, &m), &format!("{} (minimised from {} operations)", note, h.ops.len())),
+                                format!("prefix {:?}: {}", m.prefix, fail_text(&f2, &m)),
+                            );
+                        }
                     }
                 }
-            }
-            (r.replay.clone(), r.summary.clone())
-        },
-    );
-    out.exit_code
+                (r.replay.clone(), r.summary.clone())
+            },
+        );
+        out.exit_code
+    };
+    run_parallel_then(cases, opt.jobs, 60, |k, acc, note| c13_item(&sh, k, acc, note), &fin)
 }
 
 fn get_line(text: &str, head: &str) -> Option<String> {
